@@ -8,7 +8,7 @@ LEVEL = 'proof'
 R = os.path.join(vf.REPO, 'src/point_one/fusion_engine')
 CPP_SRC = [os.path.join(vf.VERIF, 'harness/cpp/c06_crc_h.cc'), R + '/messages/crc.cc', R + '/parsers/fusion_engine_framer.cc', R + '/common/logging.cc']
 PYH = [vf.PY, os.path.join(vf.VERIF, 'harness/py/c06_impl.py')]
-ASAN_ENV = dict(os.environ, ASAN_OPTIONS='detect_leaks=0', UBSAN_OPTIONS='print_stacktrace=0')
+ASAN_ENV = dict(os.environ, ASAN_OPTIONS='halt_on_error=0:detect_leaks=0', UBSAN_OPTIONS='print_stacktrace=0')
 M32 = 1 << 32
 UNKNOWN_TYPES = [60000, 61234, 65535, 30000]      # not registered: the decoder returns the payload bytes
 
@@ -16,7 +16,7 @@ UNKNOWN_TYPES = [60000, 61234, 65535, 30000]      # not registered: the decoder 
 # ---------------------------------------------------------------------------------------------------
 # runners
 # ---------------------------------------------------------------------------------------------------
-def run_jobs(exe, jobs, env=None):
+def run_jobs(exe, jobs, env=None, crash_ok=False):
     """jobs: list of (prefix_lines, lines). Each job is sharded; every shard is preceded by the prefix (whose
     outputs are dropped).  Returns list of output lists, one per job."""
     total = sum(len(l) for _, l in jobs) or 1
@@ -28,10 +28,24 @@ def run_jobs(exe, jobs, env=None):
 
     def one(s):
         ji, a, pre, lines = s
-        rc, out, err = vf.run_lines(exe, list(pre) + lines, env=env, timeout=3000)
-        if rc != 0 or len(out) != len(pre) + len(lines):
-            raise RuntimeError('runner %s rc=%s gave %d lines for %d: %s' % (exe, rc, len(out), len(pre) + len(lines), err[-1500:]))
-        return ji, a, out[len(pre):]
+        outs, todo, crashes = [], lines, 0
+        while todo:
+            rc, out, err = vf.run_lines(exe, list(pre) + todo, env=env, timeout=3000)
+            got = out[len(pre):] if len(out) >= len(pre) else []
+            if rc == 0 and len(got) == len(todo):
+                outs += got
+                break
+            # the runner died: it answers and flushes line by line, so the line after the last answer killed it
+            if not crash_ok or len(out) < len(pre) or len(got) >= len(todo):
+                raise RuntimeError('runner %s rc=%s gave %d lines for %d: %s' % (exe, rc, len(out), len(pre) + len(todo), err[-1500:]))
+            crashes += 1
+            why = ' '.join(l for l in err.split('\n') if 'ERROR' in l or 'runtime error' in l)[:160].replace('=', ':') or 'rc:%s' % rc
+            outs += got + ['CRASH ' + why.replace(' ', '_')]
+            todo = todo[len(got) + 1:]
+            if crashes >= 4:
+                outs += ['CRASH not-run-after-4-crashes'] * len(todo)
+                break
+        return ji, a, outs
     res = [[] for _ in jobs]
     with ThreadPoolExecutor(vf.NCPU) as ex:
         for ji, a, out in sorted(ex.map(one, shards), key=lambda t: (t[0], t[1])):
@@ -42,13 +56,13 @@ def run_jobs(exe, jobs, env=None):
 class Runners:
     def __init__(self):
         self.model = vf.build_extracted('c06', 'C06', 'c06_driver.ml', conv=False)
-        self.cpp = vf.build_cpp('c06_asan', CPP_SRC)
+        self.cpp = vf.build_cpp('c06_asan', CPP_SRC, extra_flags='-DUSE_ASAN -fsanitize-recover=address')
 
     def all3(self, jobs):
         """returns (py, cpp, model) outputs for the same jobs"""
         with ThreadPoolExecutor(3) as ex:
             fp = ex.submit(run_jobs, PYH, jobs, vf.IMPL_ENV)
-            fc = ex.submit(run_jobs, self.cpp, jobs, ASAN_ENV)
+            fc = ex.submit(run_jobs, self.cpp, jobs, ASAN_ENV, True)
             fm = ex.submit(run_jobs, self.model, jobs)
             return fp.result(), fc.result(), fm.result()
 
@@ -102,13 +116,17 @@ def crc_part(ctx, rn):
         lines.append('L %s %d %d' % (r.randbytes(n).hex() or '-', r.randint(0, n), r.choice([0, r.randrange(M32)])))
     py, cpp, mdl = rn.all3([([], lines[:nl0])])
     py, cpp, mdl = py[0], cpp[0], mdl[0]
-    cppL, mdlL = run_jobs(rn.cpp, [([], lines[nl0:])], ASAN_ENV)[0], run_jobs(rn.model, [([], lines[nl0:])])[0]
+    cppL, mdlL = run_jobs(rn.cpp, [([], lines[nl0:])], ASAN_ENV, True)[0], run_jobs(rn.model, [([], lines[nl0:])])[0]
     for i, l in enumerate(lines[:nl0]):
         kind = 'crc:exhaustive<=2B' if i < n_exh else ('crc:split' if i >= nsplit0 else 'crc:buffer')
         ctx.count(kind); ctx.case(l if len(l) < 60 else ('crc', i))
         t, bs = mdl[i].split()
         case = {'op': 'crc', 'line': l if len(l) < 400 else l[:400] + '...', 'python_zlib': py[i], 'cpp_CalculateCRC': cpp[i], 'model_table': t, 'model_bitserial': bs}
-        if py[i] != cpp[i]:
+        if 'VARIES' in cpp[i] or 'OVERREAD' in cpp[i]:
+            ctx.violation({'op': 'crc', 'class': 'cpp-crc-depends-on-buffer-address-or-reads-past-the-buffer', 'kind': kind},
+                          'CalculateCRC on %s at start alignments 0..7 (buffer at the end of an exact-size block / followed by garbage): %s; zlib.crc32 gives %s'
+                          % (case['line'][:80], cpp[i], py[i]), dict(case, full_line=l))
+        elif py[i] != cpp[i]:
             ctx.violation({'op': 'crc', 'class': 'python-and-cpp-crc-differ', 'kind': kind},
                           'zlib.crc32 gives %s, CalculateCRC gives %s on %s' % (py[i], cpp[i], case['line'][:80]), dict(case, full_line=l))
         elif bs != py[i]:
@@ -122,7 +140,10 @@ def crc_part(ctx, rn):
         buf = bytes.fromhex('' if w[1] == '-' else w[1])
         import zlib
         want = str(zlib.crc32(buf[:int(w[2])], int(w[3])))
-        if a != want:
+        if 'VARIES' in a or 'OVERREAD' in a:
+            ctx.violation({'op': 'crc', 'class': 'cpp-crc-depends-on-buffer-address-or-reads-past-the-buffer', 'kind': 'crc:prefix-length'},
+                          'CalculateCRC(buf,%s,%s) at start alignments 0..7: %s; zlib = %s' % (w[2], w[3], a, want), {'op': 'crc', 'full_line': l})
+        elif a != want:
             ctx.violation({'op': 'crc', 'class': 'python-and-cpp-crc-differ', 'kind': 'crc:prefix-length'}, 'CalculateCRC(buf,%s,%s) = %s, zlib = %s' % (w[2], w[3], a, want), {'op': 'crc', 'full_line': l})
         elif a != b:
             ctx.broken_correspondence('CalculateCRC(buf,len,init) model differs', {'op': 'crc', 'full_line': l, 'cpp': a, 'model': b})
@@ -331,6 +352,9 @@ def corrupt_part(ctx, rn, messages):
     for (label, msg, mtype), errs, lp, lc, lm in zip(messages, meta, py, cpp, mdl):
         n = len(msg)
         # the uncorrupted message must be accepted by everything
+        if lc[0].startswith('CRASH'):
+            ctx.violation({'op': 'validate', 'class': 'cpp-process-dies'}, 'the C++ validators kill the process on the valid %s: %s' % (label, lc[0]), {'op': 'validate', 'message': label, 'msg_hex': msg.hex(), 'flips': []})
+            continue
         a, c, m = kv(lp[0]), kv(lc[0]), kv(lm[0])
         ctx.case(('msg', msg)); ctx.count('message:' + label.split(' ')[0])
         base_case = {'op': 'validate', 'message': label, 'msg_hex': msg.hex(), 'flips': [], 'impl_python': lp[0], 'impl_cpp': lc[0], 'model_and_spec': lm[0]}
@@ -342,11 +366,21 @@ def corrupt_part(ctx, rn, messages):
             ctx.violation({'op': 'validate', 'class': 'valid-message-rejected', 'by': rej[0]}, 'a valid encoded message (%s) is rejected by %s' % (label, ', '.join(rej)), base_case)
         elif rej:
             ctx.notes.append('decoder does not return the valid %s (payload does not parse; C04 matter)' % label)
-        if (a['V'], c['I'], c['C1']) != (m['V'], m['I'], m['C1']):
+        if 'OVERREAD' in lc[0] or '/al4:' in lc[0]:
+            ctx.violation({'op': 'validate', 'class': 'cpp-reads-past-the-message-or-depends-on-alignment'},
+                          'IsValid / CalculateCRC(buffer) / framer on the valid %s: %s' % (label, lc[0]), base_case)
+        elif (a['V'], c['I'], c['C1']) != (m['V'], m['I'], m['C1']):
             ctx.broken_correspondence('validator models differ on an uncorrupted message', base_case)
         for (cls, bits), ip, ic, im in zip(errs, lp[1:], lc[1:], lm[1:]):
-            a, c, m = kv(ip), kv(ic), kv(im)
             touches = any(16 <= by <= 19 for by, _ in bits)
+            if ic.startswith('CRASH'):
+                ctx.evals += 1
+                if 'not-run' not in ic:
+                    ctx.violation({'op': 'corrupt', 'class': 'cpp-process-dies', 'touches_size_field': touches, 'spec_accepts': False},
+                                  'IsValid / CalculateCRC(buffer) / the framer kill the process on a %d-byte message (%s) with %s error %r: %s' % (n, label, cls, bits, ic),
+                                  {'op': 'corrupt', 'message': label, 'msg_hex': msg.hex(), 'class': cls, 'flips': bits, 'touches_size_field': touches, 'impl_cpp': ic, 'model_and_spec': im})
+                continue
+            a, c, m = kv(ip), kv(ic), kv(im)
             ctx.evals += 1
             ctx.count('corrupt:' + cls + ('(size field hit)' if touches else ''))
             acc = [w for w, hit in (('validate_crc', a['V'] == 'ok'), ('IsValid', c['I'] == '1'),
@@ -355,13 +389,17 @@ def corrupt_part(ctx, rn, messages):
             if acc or (a['V'], c['I'], c['C1']) != (m['V'], m['I'], m['C1']) or (cls in COVERED and not touches and m['J'] != 'R'):
                 case = {'op': 'corrupt', 'message': label, 'msg_hex': msg.hex(), 'class': cls, 'flips': bits, 'touches_size_field': touches,
                         'impl_python': ip, 'impl_cpp': ic, 'model_and_spec': im}
-            if cls == 'burst-straddling-crc-and-region':
+            if 'OVERREAD' in ic or '/al4:' in ic:
+                ctx.violation({'op': 'corrupt', 'class': 'cpp-reads-past-the-message-or-depends-on-alignment'},
+                              'IsValid / CalculateCRC(buffer) / framer on a %d-byte message (%s, pattern %r): %s' % (n, label, bits, ic),
+                              case or {'op': 'corrupt', 'message': label, 'msg_hex': msg.hex(), 'class': cls, 'flips': bits, 'impl_cpp': ic})
+            elif cls == 'burst-straddling-crc-and-region':
                 if acc:
                     straddle_acc += 1
                     ctx.count('corrupt:straddling-burst-accepted(information)')
                     ctx.sample({'straddling burst accepted': case}, limit=8)
             elif acc:
-                ctx.violation({'op': 'corrupt', 'class': cls, 'touches_size_field': touches, 'accepted_by': acc[0]},
+                ctx.violation({'op': 'corrupt', 'class': cls, 'touches_size_field': touches, 'accepted_by': acc[0], 'spec_accepts': m['J'].startswith('A')},
                               '%s error %r in a %d-byte message (%s) is accepted by %s' % (cls, bits, n, label, ', '.join(acc)), case)
             elif cls in COVERED and not touches and m['J'] != 'R':
                 ctx.broken_correspondence('the extracted acceptance test does not reject a pattern the theorems say is rejected', case)
@@ -461,7 +499,7 @@ def run(ctx):
                             'encoder: scenarios of 1-8 calls from counters around 0, 2^31 and 2^32, payload objects of every registered class whose default instance packs; '
                             'corruption: per message every single-bit flip of the CRC field and the protected region, every pair of flips for messages <= 64 bytes (sampled + all adjacent pairs otherwise), '
                             'bursts of width 2..32 at every start bit (end points, all ones, random interior) inside the region and inside the CRC field, and straddling bursts (information). '
-                            'Each pattern goes to MessageHeader.unpack(validate_crc=True), FusionEngineDecoder, IsValid, CalculateCRC(buffer) and the C++ framer (ASan/UBSan build). '
+                            'Every CalculateCRC(buf,len,init) probe runs at start alignments 0..7, once as the tail of an exact-size heap block (ASan reports over-reads) and once followed by non-zero bytes; whole messages are exact-size blocks at alignments 0 and 4 (framer input 0..7). Each pattern goes to MessageHeader.unpack(validate_crc=True), FusionEngineDecoder, IsValid, CalculateCRC(buffer) and the C++ framer (ASan/UBSan build). '
                             'evaluations counts patterns; distinct counts messages and CRC/encoder cases.')
     ctx.coverage['exhaustive'] = False
     ctx.trusted_base += ['Coq 8.16.1 kernel + vm_compute (order facts of the CRC register, primality of 65537 by exhaustion)',
